@@ -9,7 +9,7 @@ import (
 func init() { register("C08", propC08) }
 
 func propC08(c *Ctx) {
-	c.Explanation = "Decides structural necessary conditions of IPv4 reassembly for all inputs and schedules: (F1) Fragmentation.{reassemblers,rList,size} and reassembler.{holes,deleted,heap,done,size} are accessed only under their mutexes and lookup-or-create of the reassembler is one critical section; (F2) a fragment is stored only when it filled part of a hole, the datagram is handed up (done) only when every hole is deleted and the heap reassembled without error, and a failed reassembly drops the datagram instead of panicking; (F3) an existing reassembler is reused only when it is not older than the timeout; (F4) the reassembly key is computed from all four of identification, protocol, source and destination, and ipv4.HandlePacket passes first = fragment offset, last = offset + payload size - 1, more = MF bit, taking the fragment path exactly when MF is set or the offset is non-zero; (F5) memory accounting moves with the stored bytes; (F6) RFC 815 hole bookkeeping in updateHoles: the exact site table (which hole is deleted under which overlap condition, which remainder holes are created with which bounds) and (F7) reassemble: fragments are merged in heap (offset) order, every popped fragment is either appended (after trimming exactly the overlap size-offset) or the whole reassembly fails on a gap - no fragment is skipped. NOT decided: the algebra of the hole list over all fragment sequences (that the bookkeeping is sufficient), 32-bit key collisions between datagrams."
+	c.Explanation = "Decides structural necessary conditions of IPv4 reassembly for all inputs and schedules: (F1) Fragmentation.{reassemblers,rList,size} and reassembler.{holes,deleted,heap,done,size} are accessed only under their mutexes and lookup-or-create of the reassembler is one critical section; (F2) a fragment is stored only when it filled part of a hole, the datagram is handed up (done) only when every hole is deleted and the heap reassembled without error, and a failed reassembly drops the datagram instead of panicking; (F3) an existing reassembler is reused only when it is not older than the timeout; (F4) the reassembly key is computed from all four of identification, protocol, source and destination, and ipv4.HandlePacket passes first = fragment offset, last = offset + payload size - 1, more = MF bit, taking the fragment path exactly when MF is set or the offset is non-zero; (F5) memory accounting moves with the stored bytes; (F6) RFC 815 hole bookkeeping in updateHoles: the exact site table (which hole is deleted under which overlap condition, which remainder holes are created with which bounds) and (F7) reassemble: fragments are merged in heap (offset) order, every popped fragment is either appended (after trimming exactly the overlap size-offset) or the whole reassembly fails on a gap - no fragment is skipped. (F9) link typestate of the reassembler list; F6 also tables the reassembler's initial hole 0..65535. NOT decided: the algebra of the hole list over all fragment sequences (that the bookkeeping is sufficient), 32-bit key collisions between datagrams."
 	c.Assumptions = []string{"container/heap orders by fragHeap.Less", "reassembler.size is only read by release after checkDoneOrMark, which is a barrier on reassembler.mu (exception with reason)"}
 	fr := "(*fragmentation.reassembler)."
 	f1 := c.Rule("F1", "K4 lockset", "fragmentation state only under its mutexes", 30)
@@ -169,6 +169,17 @@ func propC08(c *Ctx) {
 			{Kind: "call", Target: "builtin:append", Args: sub(m, "$0.holes@u", "[fragmentation.hole{first: ($2 + 1), last: {HOLE}.last@u, deleted: false}]"), Guards: append(append([]string{}, overlap...), sub(m, "($2 < {HOLE}.last@u)", "$3")...), Exact: true, N: 1, Why: "right remainder [last+1, hole.last] kept when the fragment ends inside the hole and more fragments follow"},
 		})
 	}
+
+	if fn := c.Fn(f6, "fragmentation.newReassembler"); fn != nil {
+		c.CheckSitesPresent(f6, fn, []SiteSpec{
+			{Kind: "store", Target: "fragmentation.reassembler.holes", Args: []string{"new(fragmentation.reassembler)", "builtin:append(new(fragmentation.reassembler).holes@5, [fragmentation.hole{first: 0, last: 65535, deleted: false}])"}, Guards: []string{}, Exact: true, N: 1, Why: "RFC 815: reassembly starts with ONE hole covering the whole datagram, 0..65535"},
+			{Kind: "store", Target: "fragmentation.reassembler.deleted", Args: []string{"new(fragmentation.reassembler)", "0"}, Guards: []string{}, Exact: true, N: 1, Why: "no hole is deleted yet: done is deleted == len(holes)"},
+			{Kind: "store", Target: "fragmentation.reassembler.id", Args: []string{"new(fragmentation.reassembler)", "$0"}, Guards: []string{}, Exact: true, N: 1, Why: "the reassembler remembers the key it is stored under (release deletes by it)"},
+		})
+	}
+
+	f9 := c.Rule("F9", "typestate", "a reassembler's list links are not read after its removal unless Remove preserves them (eviction walks from the tail)", 1)
+	c.LinkTypestate(f9, "fragmentation.reassemblerList", "fragmentation.reassemblerEntry")
 
 	f8 := c.Rule("F8", "K5 alias freshness", "hole records are read and written in the live hole list", 2)
 	for _, n := range []string{fr + "updateHoles", fr + "process"} {
